@@ -315,6 +315,14 @@ def gen_plan(rng, tier="quick", prop="C18"):
             if fmt in ("swan", "swan_gz", "octopus") and rng.random() < 0.4:
                 ns = dict((k, n) for k, n in metas[slot]["recipe"]["dims"]).get("site", 1)
                 st["lonlat_args"] = [[round(150.0 + 0.5 * i, 2) for i in range(ns)], [round(-30.0 + 0.25 * i, 2) for i in range(ns)]]
+            if rng.random() < 0.35:
+                # the writers' other options
+                opts = {"swan": [{"id": "verif run"}, {"append": True}, {"compresslevel": 1}], "swan_gz": [{"compresslevel": 1}, {"id": "x"}],
+                        "octopus": [{"site_id": "stn1"}, {"fcut": 0.1}, {"missing_val": -999}, {"compresslevel": 9}],
+                        "json": [{"date_format": "%Y%m%dT%H%M%S"}, {"mode": "w"}], "funwave": [{"clip": True}],
+                        "netcdf": [{"time_encoding": {"units": "hours since 2000-01-01"}}, {"specname": "efth"}]}.get(fmt)
+                if opts:
+                    st["kw"].update(rng.choice(opts))
             if prop == "C17" and rng.random() < 0.6:
                 st["fault"] = {"kind": rng.choice(["eio", "eio", "enospc", "torn", "close_err", "short"]), "k": rng.choice([1, 1, 2, 3, 5, 8, 13, 21, 34, 55, 89])}
             steps.append(st)
@@ -780,13 +788,13 @@ def do_write(ds, fmt, path, kw):
     if fmt == "octopus":
         return ds.spec.to_octopus(path, **kw)
     if fmt == "json":
-        return ds.spec.to_json(path)
+        return ds.spec.to_json(path, **kw)
     if fmt == "ww3":
         return ds.spec.to_ww3(path)
     if fmt == "netcdf":
-        return ds.spec.to_netcdf(path, ncformat="NETCDF3_64BIT", compress=False, packed=False)
+        return ds.spec.to_netcdf(path, ncformat="NETCDF3_64BIT", compress=False, packed=False, **kw)
     if fmt == "funwave":
-        return ds.spec.to_funwave(path, clip=False)
+        return ds.spec.to_funwave(path, **dict({"clip": False}, **kw))
     if fmt == "orcaflex":
         import types
 
@@ -1108,6 +1116,8 @@ def execute(arg):
             wargs = {}
             if op == "writer" and st.get("lonlat_args"):
                 wargs = {"lons": store.get("array", st["lonlat_args"][0]), "lats": store.get("array", st["lonlat_args"][1])}
+            if op == "writer" and isinstance(st.get("kw", {}).get("time_encoding"), dict):
+                wargs["time_encoding"] = store.get("dict", st["kw"]["time_encoding"])     # the caller's own dictionary
             if op == "construct":
                 fk, dk = construct_kwargs(store, st)
             if op == "reconstruct":
